@@ -131,6 +131,21 @@ def cast_only(chk, prog, rule="cast-only-conversions", config="default"):
                         "address of the original" % (conv, "; ".join(bad[:3])),
                  sample={"conversion": conv, "functions_scanned": sorted(seen)[:8]})
     chk.floor("conversions[%s]" % config, n, 20)
+    # positive control: the scan must find the address computation in the reviewed helpers it does not descend
+    # into (GcPtr::header subtracts the header size from the value address); if it finds none, it is blind
+    found = False
+    for f in ARITH_ALLOWED:
+        seen, work = set(), [f]
+        while work and not found:
+            g = work.pop()
+            if g in seen:
+                continue
+            seen.add(g)
+            found = any(arithmetic_sites(prog, k) for k in prog.seed_n.get(g, []))
+            for e in prog.calls_from(g):
+                if e.callee and e.callee in prog.seed_n and e.kind != "drop":
+                    work.append(e.callee)
+    chk.control("cast-only-scan-sees-header-arithmetic[%s]" % config, found)
     # PtrMeta impls: to_thin / from_thin of every implementor
     m = 0
     for d in sorted(prog.seed_n):
